@@ -2,106 +2,239 @@ package main
 
 // Replay of solver counterexamples against the real code.
 //
-// For a failed obligation with a model, the model is projected onto the
-// function's parameters (integers, booleans, strings, byte slices, *big.Int,
-// structs of those), a Go test that calls the real function with these inputs
-// is generated and run through `go test -overlay` (nothing is written to
-// /repo).  A safety obligation counts as reproduced when the call panics.
+// For a failed obligation with a model (status sat):
+//   1. the query is re-run in an interactive z3 session and the model is read
+//      back lazily with (get-value ..): the function's parameters and the part
+//      of the entry heap reachable from them (structs behind pointers, byte and
+//      struct slices, interfaces whose dynamic type is one of the package's
+//      types, *big.Int values) are materialised as Go values;
+//   2. the contract's requires/ensures clauses are compiled to Go (a runtime
+//      assertion checker for the fragment of the contract language without
+//      ghost state: old(), ==>, <==>, ===, forall over ranges, typeis/unbox,
+//      bytes(), be16/32/64, macros);
+//   3. a test that builds the input, evaluates the preconditions, calls the
+//      real function and evaluates the violated clause is run through
+//      `go test -overlay` (nothing is written to /repo).
+// A safety obligation counts as reproduced when the call panics at the source
+// position of the obligation; a postcondition counts as reproduced when the
+// compiled clause evaluates to false on the real execution while every
+// compiled precondition evaluated to true.  Everything else is reported as
+// no-failing-input-found together with what was tried.
 
 import (
-	"bytes"
-	"context"
+	"bufio"
 	"encoding/json"
 	"fmt"
+	"go/token"
 	"go/types"
+	"io"
 	"math/big"
 	"os"
 	"os/exec"
 	"path/filepath"
-	"regexp"
+	"sort"
 	"strings"
 	"time"
 
 	"golang.org/x/tools/go/ssa"
 )
 
-type replayer struct {
-	script  string
-	queries []string
-	answers map[string]string
-	unsupp  string
+// ---------- interactive model session ----------
+
+type rsession struct {
+	cmd   *exec.Cmd
+	in    io.WriteCloser
+	out   *bufio.Reader
+	dead  bool
+	count int
+	start time.Time
 }
 
-func (rp *replayer) ask(q string) {
-	rp.queries = append(rp.queries, q)
-}
-
-var valueRe = regexp.MustCompile(`#x[0-9a-fA-F]+|#b[01]+|\(- \d+\)|\d+|true|false`)
-
-// runQueries runs z3-new on the script plus (get-value ..) and fills answers.
-func (rp *replayer) runQueries() bool {
-	if len(rp.queries) == 0 {
-		return true
+func startSession(script string) (*rsession, string) {
+	cmd := exec.Command("z3-new", "-in", "-smt2", "-T:120")
+	in, _ := cmd.StdinPipe()
+	outp, _ := cmd.StdoutPipe()
+	cmd.Stderr = nil
+	if err := cmd.Start(); err != nil {
+		return nil, "cannot start z3-new: " + err.Error()
 	}
-	var sb strings.Builder
-	sb.WriteString(strings.Replace(rp.script, "(get-model)\n", "", 1))
-	for _, q := range rp.queries {
-		fmt.Fprintf(&sb, "(get-value (%s))\n", q)
-	}
-	ctx, cancel := context.WithTimeout(context.Background(), 40*time.Second)
-	defer cancel()
-	cmd := exec.CommandContext(ctx, "z3-new", "-in", "-smt2", "-T:30")
-	cmd.Stdin = strings.NewReader(sb.String())
-	var out bytes.Buffer
-	cmd.Stdout = &out
-	cmd.Stderr = &out
-	_ = cmd.Run()
-	lines := strings.Split(out.String(), "\n")
-	i := 0
-	for i < len(lines) && strings.TrimSpace(lines[i]) != "sat" {
-		i++
-	}
-	if i >= len(lines) {
-		return false
-	}
-	rest := strings.Join(lines[i+1:], "\n")
-	// answers come in order, one s-expression per query
-	pos := 0
-	for _, q := range rp.queries {
-		// find next top-level "((" ... "))"
-		start := strings.Index(rest[pos:], "((")
-		if start < 0 {
-			return false
+	s := &rsession{cmd: cmd, in: in, out: bufio.NewReaderSize(outp, 1<<20), start: time.Now()}
+	go func() {
+		time.Sleep(150 * time.Second)
+		_ = cmd.Process.Kill()
+	}()
+	io.WriteString(in, script)
+	for {
+		line, err := s.out.ReadString('\n')
+		l := strings.TrimSpace(line)
+		if l == "sat" {
+			return s, "sat"
 		}
-		start += pos
-		depth := 0
-		end := -1
-		for j := start; j < len(rest); j++ {
-			if rest[j] == '(' {
-				depth++
-			} else if rest[j] == ')' {
-				depth--
-				if depth == 0 {
-					end = j
-					break
-				}
+		if l == "unsat" || l == "unknown" || l == "timeout" {
+			s.close()
+			return nil, l
+		}
+		if err != nil {
+			s.close()
+			return nil, "solver ended without an answer"
+		}
+	}
+}
+
+func (s *rsession) close() {
+	if s == nil || s.dead {
+		return
+	}
+	s.dead = true
+	s.in.Close()
+	_ = s.cmd.Process.Kill()
+	_ = s.cmd.Wait()
+}
+
+// readSexp reads one balanced s-expression (or a bare atom line).
+func (s *rsession) readSexp() (string, bool) {
+	var sb strings.Builder
+	depth := 0
+	started := false
+	inStr := false
+	inBar := false
+	for {
+		c, err := s.out.ReadByte()
+		if err != nil {
+			s.dead = true
+			return sb.String(), false
+		}
+		if !started {
+			if c == ' ' || c == '\n' || c == '\t' || c == '\r' {
+				continue
+			}
+			started = true
+			if c != '(' {
+				// atom: read to end of line
+				sb.WriteByte(c)
+				rest, _ := s.out.ReadString('\n')
+				sb.WriteString(strings.TrimSpace(rest))
+				return sb.String(), true
 			}
 		}
-		if end < 0 {
-			return false
+		sb.WriteByte(c)
+		switch {
+		case inStr:
+			if c == '"' {
+				inStr = false
+			}
+		case inBar:
+			if c == '|' {
+				inBar = false
+			}
+		case c == '"':
+			inStr = true
+		case c == '|':
+			inBar = true
+		case c == '(':
+			depth++
+		case c == ')':
+			depth--
+			if depth == 0 {
+				return sb.String(), true
+			}
 		}
-		ans := rest[start : end+1]
-		// value = last token group after the echoed term
-		vals := valueRe.FindAllString(ans, -1)
-		if len(vals) == 0 {
-			rp.answers[q] = ans
-		} else {
-			rp.answers[q] = vals[len(vals)-1]
-		}
-		pos = end + 1
 	}
-	rp.queries = nil
-	return true
+}
+
+// sexp tree
+type sx struct {
+	atom string
+	kids []*sx
+}
+
+func parseSx(s string) *sx {
+	pos := 0
+	var parse func() *sx
+	skip := func() {
+		for pos < len(s) && (s[pos] == ' ' || s[pos] == '\n' || s[pos] == '\t' || s[pos] == '\r') {
+			pos++
+		}
+	}
+	parse = func() *sx {
+		skip()
+		if pos >= len(s) {
+			return nil
+		}
+		if s[pos] == '(' {
+			pos++
+			n := &sx{}
+			for {
+				skip()
+				if pos >= len(s) {
+					return n
+				}
+				if s[pos] == ')' {
+					pos++
+					return n
+				}
+				k := parse()
+				if k == nil {
+					return n
+				}
+				n.kids = append(n.kids, k)
+			}
+		}
+		st := pos
+		if s[pos] == '|' {
+			pos++
+			for pos < len(s) && s[pos] != '|' {
+				pos++
+			}
+			pos++
+			return &sx{atom: s[st:pos]}
+		}
+		if s[pos] == '"' {
+			pos++
+			for pos < len(s) && s[pos] != '"' {
+				pos++
+			}
+			pos++
+			return &sx{atom: s[st:pos]}
+		}
+		for pos < len(s) && !strings.ContainsRune(" \n\t\r()", rune(s[pos])) {
+			pos++
+		}
+		return &sx{atom: s[st:pos]}
+	}
+	return parse()
+}
+
+func (n *sx) String() string {
+	if n == nil {
+		return ""
+	}
+	if n.kids == nil && n.atom != "" {
+		return n.atom
+	}
+	var ps []string
+	for _, k := range n.kids {
+		ps = append(ps, k.String())
+	}
+	return "(" + strings.Join(ps, " ") + ")"
+}
+
+// value evaluates a closed SMT term in the session's model.
+func (s *rsession) value(term string) (*sx, bool) {
+	if s == nil || s.dead || s.count > 6000 || time.Since(s.start) > 100*time.Second {
+		return nil, false
+	}
+	s.count++
+	fmt.Fprintf(s.in, "(get-value (%s))\n", term)
+	txt, ok := s.readSexp()
+	if !ok {
+		return nil, false
+	}
+	t := parseSx(txt)
+	if t == nil || len(t.kids) != 1 || len(t.kids[0].kids) != 2 {
+		return nil, false
+	}
+	return t.kids[0].kids[1], true
 }
 
 func parseNum(s string) (*big.Int, bool) {
@@ -121,170 +254,679 @@ func parseNum(s string) (*big.Int, bool) {
 	return n, ok
 }
 
-func typeLit(T types.Type) string {
-	return types.TypeString(T, func(p *types.Package) string {
-		if p.Name() == "otr3" || p.Name() == "sexp" {
+// ---------- rendering model values as Go ----------
+
+type renderer struct {
+	pre     *State
+	sess    *rsession
+	pkg     *types.Package
+	decls   []string
+	alias   map[string]string
+	imports map[string]string // path -> local name
+	notes   map[string]bool
+	n       int
+}
+
+func (r *renderer) note(f string, a ...interface{}) { r.notes[fmt.Sprintf(f, a...)] = true }
+
+func (r *renderer) fresh(p string) string {
+	r.n++
+	return fmt.Sprintf("zz%s%d", p, r.n)
+}
+
+// typeLit prints a type as Go source valid inside the package under test; ok is
+// false when the type cannot be named there (unexported type of another package).
+func (r *renderer) typeLit(T types.Type) (string, bool) {
+	ok := true
+	s := types.TypeString(T, func(p *types.Package) string {
+		if p == r.pkg {
 			return ""
 		}
+		r.imports[p.Path()] = p.Name()
 		return p.Name()
 	})
-}
-
-// plan collects the queries needed to render a value; render produces the Go literal.
-type valuePlan struct {
-	term string
-	T    types.Type
-}
-
-func (rp *replayer) plan1(term string, T types.Type) {
-	switch u := T.Underlying().(type) {
-	case *types.Basic:
-		switch {
-		case u.Info()&types.IsInteger != 0, u.Info()&types.IsBoolean != 0:
-			rp.ask(term)
-		case u.Info()&types.IsString != 0:
-			rp.ask(fmt.Sprintf("(str_len %s)", term))
-		default:
-			rp.unsupp = "parameter of type " + T.String()
-		}
-	case *types.Slice:
-		if eb, ok := u.Elem().Underlying().(*types.Basic); !ok || eb.Kind() != types.Uint8 {
-			rp.unsupp = "slice parameter of type " + T.String()
+	var visit func(t types.Type, depth int)
+	visit = func(t types.Type, depth int) {
+		if depth > 6 {
 			return
 		}
-		rp.ask(fmt.Sprintf("(= (sbase %s) null)", term))
-		rp.ask(fmt.Sprintf("(slen %s)", term))
-		rp.ask(fmt.Sprintf("(scap %s)", term))
-	case *types.Struct:
-		si := structInfo(T)
-		for _, f := range si.Fields {
-			rp.plan1(fmt.Sprintf("(%s %s)", quoteSym(f.Acc), term), f.T)
-		}
-	case *types.Array:
-		if eb, ok := u.Elem().Underlying().(*types.Basic); !ok || eb.Kind() != types.Uint8 || u.Len() > 64 {
-			rp.unsupp = "array parameter of type " + T.String()
-			return
-		}
-		for i := int64(0); i < u.Len(); i++ {
-			rp.ask(fmt.Sprintf("(select %s (_ bv%d 64))", term, i))
-		}
-	case *types.Pointer:
-		if n, ok := u.Elem().(*types.Named); ok && n.Obj().Name() == "Int" && n.Obj().Pkg() != nil && n.Obj().Pkg().Path() == "math/big" {
-			rp.ask(fmt.Sprintf("(= %s null)", term))
-			if _, ok := memArrays["G$val"]; ok {
-				rp.ask(fmt.Sprintf("(select |G$val@pre| %s)", term))
+		switch u := t.(type) {
+		case *types.Named:
+			if u.Obj().Pkg() != nil && u.Obj().Pkg() != r.pkg && !u.Obj().Exported() {
+				ok = false
 			}
-			return
+		case *types.Pointer:
+			visit(u.Elem(), depth+1)
+		case *types.Slice:
+			visit(u.Elem(), depth+1)
+		case *types.Array:
+			visit(u.Elem(), depth+1)
+		case *types.Map:
+			visit(u.Key(), depth+1)
+			visit(u.Elem(), depth+1)
 		}
-		rp.unsupp = "pointer parameter of type " + T.String()
-	default:
-		rp.unsupp = "parameter of type " + T.String()
 	}
+	visit(T, 0)
+	return s, ok
 }
 
-const maxReplayBytes = 4096
+func (r *renderer) num(t *Term) (*big.Int, bool) {
+	v, ok := r.sess.value(t.String())
+	if !ok {
+		return nil, false
+	}
+	return parseNum(v.String())
+}
 
-func (rp *replayer) plan2(term string, T types.Type) {
-	switch u := T.Underlying().(type) {
+func (r *renderer) boolean(t *Term) (bool, bool) {
+	v, ok := r.sess.value(t.String())
+	if !ok {
+		return false, false
+	}
+	return v.String() == "true", v.String() == "true" || v.String() == "false"
+}
+
+const maxReplayBytes = 2048
+const maxReplayElems = 24
+const maxReplayDepth = 7
+
+func isBigInt(T types.Type) bool {
+	n, ok := T.(*types.Named)
+	return ok && n.Obj().Name() == "Int" && n.Obj().Pkg() != nil && n.Obj().Pkg().Path() == "math/big"
+}
+
+func (r *renderer) zero(T types.Type) string {
+	tl, ok := r.typeLit(T)
+	if !ok {
+		return "nil"
+	}
+	switch T.Underlying().(type) {
 	case *types.Basic:
-		if u.Info()&types.IsString != 0 {
-			n, ok := parseNum(rp.answers[fmt.Sprintf("(str_len %s)", term)])
-			if !ok || n.Cmp(big.NewInt(maxReplayBytes)) > 0 {
-				rp.unsupp = "string too long in model"
+		b := T.Underlying().(*types.Basic)
+		switch {
+		case b.Info()&types.IsBoolean != 0:
+			return tl + "(false)"
+		case b.Info()&types.IsString != 0:
+			return tl + `("")`
+		case b.Info()&types.IsNumeric != 0:
+			return tl + "(0)"
+		}
+		return "nil"
+	case *types.Struct, *types.Array:
+		return tl + "{}"
+	}
+	return "(" + tl + ")(nil)"
+}
+
+// value renders the model value of term t (of Go type T) as a Go expression.
+func (r *renderer) value(t *Term, T types.Type, depth int) (out string) {
+	defer func() {
+		if e := recover(); e != nil {
+			if u, ok := e.(unsupported); ok {
+				r.note("not materialised (%s): %s", types.TypeString(T, nil), u.msg)
+				out = r.zero(T)
 				return
 			}
-			for i := int64(0); i < n.Int64(); i++ {
-				rp.ask(fmt.Sprintf("(str_at %s (_ bv%d 64))", term, i))
-			}
+			panic(e)
 		}
-	case *types.Slice:
-		if rp.answers[fmt.Sprintf("(= (sbase %s) null)", term)] == "true" {
-			return
-		}
-		n, ok := parseNum(rp.answers[fmt.Sprintf("(slen %s)", term)])
-		if !ok || n.Cmp(big.NewInt(maxReplayBytes)) > 0 {
-			rp.unsupp = fmt.Sprintf("slice of length %s in model: too large to materialise", rp.answers[fmt.Sprintf("(slen %s)", term)])
-			return
-		}
-		for i := int64(0); i < n.Int64(); i++ {
-			rp.ask(fmt.Sprintf("(select (select |A$uint8@pre| (sbase %s)) (bvadd (soff %s) (_ bv%d 64)))", term, term, i))
-		}
-	case *types.Struct:
-		si := structInfo(T)
-		for _, f := range si.Fields {
-			rp.plan2(fmt.Sprintf("(%s %s)", quoteSym(f.Acc), term), f.T)
-		}
+	}()
+	tl, nameable := r.typeLit(T)
+	if !nameable {
+		r.note("value of type %s cannot be named from the package: left nil", T)
+		return "nil"
 	}
-}
-
-func (rp *replayer) render(term string, T types.Type) string {
+	if depth > maxReplayDepth {
+		r.note("heap deeper than %d levels: left zero", maxReplayDepth)
+		return r.zero(T)
+	}
 	switch u := T.Underlying().(type) {
 	case *types.Basic:
 		switch {
 		case u.Info()&types.IsBoolean != 0:
-			return fmt.Sprintf("%s(%s)", typeLit(T), rp.answers[term])
+			b, ok := r.boolean(t)
+			if !ok {
+				return r.zero(T)
+			}
+			return fmt.Sprintf("%s(%v)", tl, b)
 		case u.Info()&types.IsInteger != 0:
-			n, _ := parseNum(rp.answers[term])
+			n, ok := r.num(t)
+			if !ok {
+				return r.zero(T)
+			}
 			w, sg := intSize(u)
-			if sg && n.Bit(w-1) == 1 {
+			if sg && n.Sign() >= 0 && n.Bit(w-1) == 1 {
 				n.Sub(n, new(big.Int).Lsh(big.NewInt(1), uint(w)))
 			}
-			return fmt.Sprintf("%s(%s)", typeLit(T), n.String())
+			return fmt.Sprintf("%s(%s)", tl, n.String())
 		case u.Info()&types.IsString != 0:
-			n, _ := parseNum(rp.answers[fmt.Sprintf("(str_len %s)", term)])
+			n, ok := r.num(UF("str_len", BV(64), t))
+			if !ok || n.Sign() < 0 || n.Cmp(big.NewInt(512)) > 0 {
+				if ok {
+					r.note("string of length %s in the model: left empty", n)
+				}
+				return r.zero(T)
+			}
 			var bs []byte
 			for i := int64(0); i < n.Int64(); i++ {
-				b, _ := parseNum(rp.answers[fmt.Sprintf("(str_at %s (_ bv%d 64))", term, i)])
+				b, ok := r.num(UF("str_at", BV(8), t, bv64(i)))
+				if !ok {
+					return r.zero(T)
+				}
 				bs = append(bs, byte(b.Int64()))
 			}
-			return fmt.Sprintf("%s(%q)", typeLit(T), string(bs))
+			return fmt.Sprintf("%s(%q)", tl, string(bs))
 		}
+		r.note("value of basic type %s: left zero", T)
+		return r.zero(T)
+	case *types.Pointer:
+		isNull, ok := r.boolean(Eq(t, Null))
+		if !ok || isNull {
+			return "(" + tl + ")(nil)"
+		}
+		refv, ok := r.sess.value(t.String())
+		if !ok {
+			return "(" + tl + ")(nil)"
+		}
+		key := refv.String() + "|" + typeKey(u.Elem())
+		if v, ok := r.alias[key]; ok {
+			return v
+		}
+		if isBigInt(u.Elem()) {
+			v := r.fresh("b")
+			val := "0"
+			if _, ok := memArrays["G$val"]; ok {
+				if n, ok := r.num(Select(r.pre.get("G$val", memArrays["G$val"]), t)); ok {
+					val = n.String()
+				}
+			}
+			r.imports["math/big"] = "big"
+			r.decls = append(r.decls, fmt.Sprintf("%s, _ := new(big.Int).SetString(%q, 10)", v, val))
+			r.alias[key] = v
+			return v
+		}
+		if !strings.HasSuffix(refv.String(), " proot)") {
+			r.note("interior pointer %s in the model: materialised as a separate object", refv)
+		}
+		etl, ok2 := r.typeLit(u.Elem())
+		if !ok2 {
+			return "(" + tl + ")(nil)"
+		}
+		v := r.fresh("p")
+		r.decls = append(r.decls, fmt.Sprintf("%s := new(%s)", v, etl))
+		r.alias[key] = v
+		switch eu := u.Elem().Underlying().(type) {
+		case *types.Struct:
+			r.fillStruct("(*"+v+")", t, u.Elem(), eu, depth+1)
+		default:
+			val := r.value(r.pre.load(t, u.Elem()), u.Elem(), depth+1)
+			r.decls = append(r.decls, fmt.Sprintf("*%s = %s", v, val))
+		}
+		return v
 	case *types.Slice:
-		if rp.answers[fmt.Sprintf("(= (sbase %s) null)", term)] == "true" {
-			return fmt.Sprintf("%s(nil)", typeLit(T))
+		isNull, ok := r.boolean(Eq(Acc("sbase", t), Null))
+		if !ok || isNull {
+			return "(" + tl + ")(nil)"
 		}
-		n, _ := parseNum(rp.answers[fmt.Sprintf("(slen %s)", term)])
-		cp, _ := parseNum(rp.answers[fmt.Sprintf("(scap %s)", term)])
+		ln, ok1 := r.num(Acc("slen", t))
+		cp, ok2 := r.num(Acc("scap", t))
+		if !ok1 || !ok2 {
+			return "(" + tl + ")(nil)"
+		}
+		lim := int64(maxReplayElems)
+		if eb, ok := u.Elem().Underlying().(*types.Basic); ok && eb.Info()&types.IsInteger != 0 {
+			lim = maxReplayBytes
+		}
+		if ln.Sign() < 0 || ln.Cmp(big.NewInt(lim)) > 0 {
+			r.note("slice of length %s in the model: too large to materialise, left nil", ln)
+			return "(" + tl + ")(nil)"
+		}
+		etl, _ := r.typeLit(u.Elem())
 		var parts []string
-		for i := int64(0); i < n.Int64(); i++ {
-			b, _ := parseNum(rp.answers[fmt.Sprintf("(select (select |A$uint8@pre| (sbase %s)) (bvadd (soff %s) (_ bv%d 64)))", term, term, i)])
-			parts = append(parts, fmt.Sprintf("0x%02x", b.Int64()))
+		arr := Select(r.pre.amem(u.Elem()), Acc("sbase", t))
+		for i := int64(0); i < ln.Int64(); i++ {
+			parts = append(parts, r.value(Select(arr, BVAdd(Acc("soff", t), bv64(i))), u.Elem(), depth+1))
 		}
-		lit := fmt.Sprintf("[]byte{%s}", strings.Join(parts, ", "))
-		if cp.Cmp(n) > 0 && cp.Cmp(big.NewInt(maxReplayBytes)) <= 0 {
-			lit = fmt.Sprintf("append(make([]byte, 0, %d), %s...)", cp.Int64(), lit)
+		lit := fmt.Sprintf("[]%s{%s}", etl, strings.Join(parts, ", "))
+		if cp.Cmp(ln) > 0 && cp.Cmp(big.NewInt(lim)) <= 0 {
+			lit = fmt.Sprintf("append(make([]%s, 0, %d), %s...)", etl, cp.Int64(), lit)
 		}
-		return fmt.Sprintf("%s(%s)", typeLit(T), lit)
+		return fmt.Sprintf("%s(%s)", tl, lit)
 	case *types.Struct:
 		si := structInfo(T)
 		var parts []string
-		for _, f := range si.Fields {
-			parts = append(parts, fmt.Sprintf("%s: %s", f.Name, rp.render(fmt.Sprintf("(%s %s)", quoteSym(f.Acc), term), f.T)))
+		for i, f := range si.Fields {
+			if !r.fieldAccessible(T, u, i) {
+				continue
+			}
+			v := r.value(StructField(si, t, i), f.T, depth+1)
+			if v == r.zero(f.T) || v == "nil" {
+				continue
+			}
+			parts = append(parts, fmt.Sprintf("%s: %s", f.Name, v))
 		}
-		return fmt.Sprintf("%s{%s}", typeLit(T), strings.Join(parts, ", "))
+		return fmt.Sprintf("%s{%s}", tl, strings.Join(parts, ", "))
 	case *types.Array:
+		if u.Len() > 64 {
+			r.note("array of %d elements: left zero", u.Len())
+			return tl + "{}"
+		}
 		var parts []string
 		for i := int64(0); i < u.Len(); i++ {
-			b, _ := parseNum(rp.answers[fmt.Sprintf("(select %s (_ bv%d 64))", term, i)])
-			parts = append(parts, fmt.Sprintf("0x%02x", b.Int64()))
+			parts = append(parts, r.value(Select(t, bv64(i)), u.Elem(), depth+1))
 		}
-		return fmt.Sprintf("%s{%s}", typeLit(T), strings.Join(parts, ", "))
-	case *types.Pointer:
-		if rp.answers[fmt.Sprintf("(= %s null)", term)] == "true" {
-			return "(*big.Int)(nil)"
+		return fmt.Sprintf("%s{%s}", tl, strings.Join(parts, ", "))
+	case *types.Interface:
+		tag, ok := r.num(Acc("itag", t))
+		if !ok || tag.Sign() == 0 {
+			return "(" + tl + ")(nil)"
 		}
-		v := "0"
-		if a, ok := rp.answers[fmt.Sprintf("(select |G$val@pre| %s)", term)]; ok {
-			if n, ok := parseNum(a); ok {
-				v = n.String()
+		if !tag.IsInt64() || tag.Int64() < 0 || int(tag.Int64()) >= len(prog.TagType) {
+			r.note("interface value with a dynamic type outside the program's type table: left nil")
+			return "(" + tl + ")(nil)"
+		}
+		dyn := prog.TagType[tag.Int64()]
+		if dyn == nil {
+			return "(" + tl + ")(nil)"
+		}
+		dtl, ok2 := r.typeLit(dyn)
+		if !ok2 {
+			r.note("interface value of dynamic type %s cannot be constructed from the package: left nil", dyn)
+			return "(" + tl + ")(nil)"
+		}
+		if !types.AssignableTo(dyn, T) {
+			r.note("model gives interface %s the dynamic type %s, which does not implement it: left nil", T, dyn)
+			return "(" + tl + ")(nil)"
+		}
+		switch dyn.Underlying().(type) {
+		case *types.Pointer:
+			return fmt.Sprintf("%s(%s)", tl, r.value(Acc("iref", t), dyn, depth+1))
+		case *types.Struct:
+			if isEmptyStruct(dyn) {
+				return fmt.Sprintf("%s(%s{})", tl, dtl)
 			}
 		}
-		return fmt.Sprintf("zzBig(%q)", v)
+		return fmt.Sprintf("%s(%s)", tl, r.value(r.pre.load(Acc("iref", t), dyn), dyn, depth+1))
+	case *types.Signature:
+		fid, ok := r.num(Acc("fid", t))
+		if !ok || fid.Sign() == 0 || !fid.IsInt64() || int(fid.Int64()) >= len(prog.FuncByID) {
+			return "nil"
+		}
+		fn := prog.FuncByID[fid.Int64()]
+		if fn != nil && fn.Parent() == nil && len(fn.FreeVars) == 0 && fn.Signature.Recv() == nil && fn.Pkg != nil && fn.Pkg.Pkg == r.pkg {
+			return fn.Name()
+		}
+		r.note("function value in the model: left nil")
+		return "nil"
 	}
-	return "nil"
+	r.note("value of type %s: left zero", T)
+	return r.zero(T)
 }
 
+func (r *renderer) fieldAccessible(T types.Type, st *types.Struct, i int) bool {
+	f := st.Field(i)
+	if f.Name() == "_" {
+		return false
+	}
+	if f.Exported() {
+		return true
+	}
+	return f.Pkg() == r.pkg
+}
+
+// fillStruct assigns the accessible fields of the struct at address addr.
+func (r *renderer) fillStruct(lv string, addr *Term, T types.Type, st *types.Struct, depth int) {
+	si := structInfo(T)
+	for i, f := range si.Fields {
+		if !r.fieldAccessible(T, st, i) {
+			if _, isB := f.T.Underlying().(*types.Basic); !isB {
+				r.note("unexported field %s.%s of another package: left zero", types.TypeString(T, nil), f.Name)
+			}
+			continue
+		}
+		func() {
+			defer func() {
+				if e := recover(); e != nil {
+					if u, ok := e.(unsupported); ok {
+						r.note("field %s not materialised: %s", f.Name, u.msg)
+						return
+					}
+					panic(e)
+				}
+			}()
+			fa := FldRef(addr, i, si.Key)
+			if fs, ok := f.T.Underlying().(*types.Struct); ok {
+				if fs.NumFields() > 0 {
+					r.fillStruct(lv+"."+f.Name, fa, f.T, fs, depth)
+				}
+				return
+			}
+			v := r.value(r.pre.load(fa, f.T), f.T, depth)
+			if v != r.zero(f.T) && v != "nil" {
+				r.decls = append(r.decls, fmt.Sprintf("%s.%s = %s", lv, f.Name, v))
+			}
+		}()
+	}
+}
+
+// ---------- contracts compiled to Go ----------
+
+type ctrans struct {
+	fn      *ssa.Function
+	sp      *FuncSpec
+	bound   map[string]bool
+	olds    []string // statements evaluated before the call
+	nold    int
+	subst   map[string]*CExpr
+	results map[string]string
+	why     string
+	inOld   bool
+}
+
+func (c *ctrans) fail(f string, a ...interface{}) string {
+	if c.why == "" {
+		c.why = fmt.Sprintf(f, a...)
+	}
+	return "false"
+}
+
+var goBinOps = map[string]bool{"==": true, "!=": true, "<": true, "<=": true, ">": true, ">=": true, "+": true, "-": true, "*": true, "/": true, "%": true, "&": true, "|": true, "^": true, "<<": true, ">>": true, "&&": true, "||": true, "&^": true}
+
+func isLiteralish(e *CExpr) bool {
+	switch e.Op {
+	case "num", "char", "str":
+		return true
+	case "id":
+		return e.Name == "nil" || e.Name == "true" || e.Name == "false"
+	case "un":
+		return isLiteralish(e.Args[0])
+	}
+	return false
+}
+
+func mentionsBound(e *CExpr, bound map[string]bool) bool {
+	if e == nil {
+		return false
+	}
+	if e.Op == "id" && bound[e.Name] {
+		return true
+	}
+	for _, a := range e.Args {
+		if mentionsBound(a, bound) {
+			return true
+		}
+	}
+	return false
+}
+
+func (c *ctrans) tr(e *CExpr) string {
+	if e == nil {
+		return ""
+	}
+	switch e.Op {
+	case "num":
+		return e.Name
+	case "char":
+		return e.Name
+	case "str":
+		return fmt.Sprintf("%q", e.Name)
+	case "id":
+		if s, ok := c.subst[e.Name]; ok {
+			saved := c.subst
+			c.subst = nil
+			out := c.tr(s)
+			c.subst = saved
+			return out
+		}
+		if c.bound[e.Name] {
+			return e.Name
+		}
+		if r, ok := c.results[e.Name]; ok {
+			if c.inOld {
+				return c.fail("old() of a result")
+			}
+			return r
+		}
+		if m, ok := specs.Macros[e.Name]; ok && len(m.Params) == 0 {
+			return c.tr(m.Body)
+		}
+		if _, isGhost := specs.GhostFields[e.Name]; isGhost {
+			return c.fail("ghost state %s", e.Name)
+		}
+		return e.Name
+	case "un":
+		return "(" + e.Name + c.tr(e.Args[0]) + ")"
+	case "star":
+		return "(*" + c.tr(e.Args[0]) + ")"
+	case "field":
+		if e.Name == "*" {
+			return "(*" + c.tr(e.Args[0]) + ")"
+		}
+		return c.tr(e.Args[0]) + "." + e.Name
+	case "index":
+		return c.tr(e.Args[0]) + "[" + c.tr(e.Args[1]) + "]"
+	case "slice":
+		return c.tr(e.Args[0]) + "[" + c.tr(e.Args[1]) + ":" + c.tr(e.Args[2]) + "]"
+	case "bin":
+		a, b := e.Args[0], e.Args[1]
+		switch e.Name {
+		case "==>":
+			return "(!(" + c.tr(a) + ") || (" + c.tr(b) + "))"
+		case "<==>":
+			return "((" + c.tr(a) + ") == (" + c.tr(b) + "))"
+		case "===", "==", "!==", "!=":
+			neg := ""
+			if strings.HasPrefix(e.Name, "!") {
+				neg = "!"
+			}
+			if isLiteralish(a) || isLiteralish(b) {
+				op := "=="
+				if neg != "" {
+					op = "!="
+				}
+				return "(" + c.tr(a) + " " + op + " " + c.tr(b) + ")"
+			}
+			return "(" + neg + "zzEq(" + c.tr(a) + ", " + c.tr(b) + "))"
+		}
+		if goBinOps[e.Name] {
+			return "(" + c.tr(a) + " " + e.Name + " " + c.tr(b) + ")"
+		}
+		return c.fail("operator %s", e.Name)
+	case "forall", "exists":
+		if len(e.Args) != 3 {
+			return c.fail("unbounded quantifier")
+		}
+		if c.bound == nil {
+			c.bound = map[string]bool{}
+		}
+		lo, hi := c.tr(e.Args[1]), c.tr(e.Args[2])
+		was := c.bound[e.Name]
+		c.bound[e.Name] = true
+		body := c.tr(e.Args[0])
+		c.bound[e.Name] = was
+		if e.Op == "forall" {
+			return fmt.Sprintf("func() bool { for %s := int(%s); %s < int(%s); %s++ { if !(%s) { return false } }; return true }()", e.Name, lo, e.Name, hi, e.Name, body)
+		}
+		return fmt.Sprintf("func() bool { for %s := int(%s); %s < int(%s); %s++ { if %s { return true } }; return false }()", e.Name, lo, e.Name, hi, e.Name, body)
+	case "call":
+		if m, ok := specs.Macros[e.Name]; ok {
+			if len(m.Params) != len(e.Args) {
+				return c.fail("macro arity %s", e.Name)
+			}
+			// substitute arguments (already-translated text cannot be substituted, so expand on the AST)
+			sub := map[string]*CExpr{}
+			for i, p := range m.Params {
+				sub[p] = c.expand(e.Args[i])
+			}
+			saved := c.subst
+			c.subst = sub
+			out := c.tr(m.Body)
+			c.subst = saved
+			return out
+		}
+		if _, ok := specs.Ghosts[e.Name]; ok {
+			return c.fail("ghost function %s", e.Name)
+		}
+		if _, ok := specs.GhostFields[e.Name]; ok {
+			return c.fail("ghost state %s", e.Name)
+		}
+		arg := func(i int) string { return c.tr(e.Args[i]) }
+		switch e.Name {
+		case "len", "cap":
+			return e.Name + "(" + arg(0) + ")"
+		case "old":
+			if c.inOld {
+				return arg(0)
+			}
+			if mentionsBound(c.expand(e.Args[0]), c.bound) {
+				return c.fail("old() under a quantifier")
+			}
+			c.inOld = true
+			v := arg(0)
+			c.inOld = false
+			c.nold++
+			name := fmt.Sprintf("zzold%d", c.nold)
+			c.olds = append(c.olds, fmt.Sprintf("%s := %s", name, v))
+			return name
+		case "typeis":
+			return fmt.Sprintf("func() bool { _, ok := interface{}(%s).(%s); return ok }()", arg(0), arg(1))
+		case "typeisptr":
+			return fmt.Sprintf("func() bool { _, ok := interface{}(%s).(*%s); return ok }()", arg(0), arg(1))
+		case "unbox":
+			return fmt.Sprintf("interface{}(%s).(%s)", arg(0), arg(1))
+		case "bytes":
+			return "string(" + arg(0) + ")"
+		case "be16", "be32", "be64":
+			return fmt.Sprintf("zzBE(%s, int(%s), %s)", arg(0), arg(1), strings.TrimPrefix(e.Name, "be"))
+		case "ite":
+			return c.fail("ite")
+		case "int", "int8", "int16", "int32", "int64", "uint", "uint8", "uint16", "uint32", "uint64", "byte", "string":
+			return e.Name + "(" + arg(0) + ")"
+		}
+		// conversion to a named type of the package
+		if c.fn != nil && c.fn.Pkg != nil {
+			if obj := c.fn.Pkg.Pkg.Scope().Lookup(e.Name); obj != nil {
+				if _, isT := obj.(*types.TypeName); isT && len(e.Args) == 1 {
+					return e.Name + "(" + arg(0) + ")"
+				}
+			}
+		}
+		return c.fail("builtin %s", e.Name)
+	}
+	return c.fail("expression %s", e)
+}
+
+// expand applies the current macro substitution to an argument expression.
+func (c *ctrans) expand(e *CExpr) *CExpr {
+	if e == nil || c.subst == nil {
+		return e
+	}
+	if e.Op == "id" {
+		if s, ok := c.subst[e.Name]; ok {
+			return s
+		}
+		return e
+	}
+	n := *e
+	n.Args = make([]*CExpr, len(e.Args))
+	for i, a := range e.Args {
+		n.Args[i] = c.expand(a)
+	}
+	return &n
+}
+
+const replayHelpers = `
+func zzIsInt(k reflect.Kind) bool { return k >= reflect.Int && k <= reflect.Uintptr }
+func zzBigOf(v reflect.Value) *big.Int {
+	if v.Kind() >= reflect.Int && v.Kind() <= reflect.Int64 {
+		return big.NewInt(v.Int())
+	}
+	return new(big.Int).SetUint64(v.Uint())
+}
+func zzEq(a, b interface{}) bool { return zzEqV(reflect.ValueOf(a), reflect.ValueOf(b)) }
+func zzEqV(a, b reflect.Value) bool {
+	if !a.IsValid() || !b.IsValid() {
+		return a.IsValid() == b.IsValid()
+	}
+	if zzIsInt(a.Kind()) && zzIsInt(b.Kind()) {
+		return zzBigOf(a).Cmp(zzBigOf(b)) == 0
+	}
+	if a.Type() != b.Type() {
+		return false
+	}
+	switch a.Kind() {
+	case reflect.Slice:
+		return a.Len() == b.Len() && a.IsNil() == b.IsNil() && (a.Len() == 0 || a.Pointer() == b.Pointer())
+	case reflect.Struct:
+		for i := 0; i < a.NumField(); i++ {
+			if !zzEqV(a.Field(i), b.Field(i)) {
+				return false
+			}
+		}
+		return true
+	case reflect.Array:
+		for i := 0; i < a.Len(); i++ {
+			if !zzEqV(a.Index(i), b.Index(i)) {
+				return false
+			}
+		}
+		return true
+	case reflect.Interface:
+		if a.IsNil() || b.IsNil() {
+			return a.IsNil() == b.IsNil()
+		}
+		return zzEqV(a.Elem(), b.Elem())
+	case reflect.Ptr, reflect.Map, reflect.Chan, reflect.Func, reflect.UnsafePointer:
+		return a.Pointer() == b.Pointer()
+	case reflect.String:
+		return a.String() == b.String()
+	case reflect.Bool:
+		return a.Bool() == b.Bool()
+	case reflect.Float32, reflect.Float64:
+		return a.Float() == b.Float()
+	}
+	return false
+}
+func zzBE(s []byte, off int, bits int) uint64 {
+	var v uint64
+	for i := 0; i < bits/8; i++ {
+		v = v<<8 | uint64(s[off+i])
+	}
+	return v
+}
+func zzStack() string {
+	var out []string
+	for _, l := range strings.Split(string(debug.Stack()), "\n") {
+		if strings.Contains(l, ".go:") {
+			out = append(out, strings.TrimSpace(l))
+		}
+	}
+	return strings.Join(out, " | ")
+}
+`
+
 var safetyKinds = map[string]bool{"index": true, "slice": true, "nil": true, "nil.iface": true, "nil.func": true, "divzero": true, "typeassert": true, "makeslice": true, "panic": true, "shift.negative": true}
+
+// findClause returns the contract clause an ensures/preserves obligation was generated from.
+func findClause(sp *FuncSpec, o *Obl) (*Clause, bool) {
+	if sp == nil {
+		return nil, false
+	}
+	if strings.HasPrefix(o.Snip, "preserves ") {
+		src := strings.TrimPrefix(o.Snip, "preserves ")
+		for _, c := range sp.Preserves {
+			if c.Src == src {
+				return c, true
+			}
+		}
+		return nil, false
+	}
+	for _, c := range sp.Ensures {
+		if c.Src == o.Snip {
+			return c, false
+		}
+	}
+	return nil, false
+}
 
 func tryReplay(r *FuncResult, o *Obl) string {
 	if o.Status != "sat" {
@@ -292,88 +934,236 @@ func tryReplay(r *FuncResult, o *Obl) string {
 	}
 	fn := r.Fn
 	if fn == nil {
-		return "\nreplay: lemma obligation, nothing to execute\n"
+		return "\nreplay: lemma obligation, nothing to execute; no-failing-input-found\n"
 	}
-	// receiver handling
-	var callPrefix string
-	params := fn.Params
-	if recv := fn.Signature.Recv(); recv != nil {
-		if !isEmptyStruct(recv.Type()) {
-			return "\nreplay: not attempted (method with a non-trivial receiver of type " + recv.Type().String() + "); no-failing-input-found\n"
-		}
-		callPrefix = typeLit(recv.Type()) + "{}."
-		params = params[1:]
+	if fn.Parent() != nil || len(fn.FreeVars) > 0 {
+		return "\nreplay: not attempted (closure); no-failing-input-found\n"
 	}
+	kind := o.Kind
+	if i := strings.Index(kind, ":"); i >= 0 {
+		kind = kind[:i]
+	}
+	sp := lookupSpec(fn)
+	var clause *Clause
+	isPreserves := false
+	if kind == "ensures" {
+		clause, isPreserves = findClause(sp, o)
+	}
+	if !safetyKinds[kind] && clause == nil {
+		return "\nreplay: not attempted (obligation of kind " + o.Kind + " has no dynamic counterpart); no-failing-input-found\n"
+	}
+
+	// 1. model session.  All memory arrays are declared so that any part of the entry heap can be read.
 	termMu.Lock()
 	asserts := prefixAssumptions(r, o)
 	asserts = append(asserts, And(o.Guard, Not(o.Goal)))
-	script := buildScript(asserts, false)
+	pre := NewState("pre")
+	var extra []*Term
+	var names []string
+	for n := range memArrays {
+		names = append(names, n)
+	}
+	sort.Strings(names)
+	for _, n := range names {
+		v := pre.get(n, memArrays[n])
+		extra = append(extra, Eq(v, v))
+	}
+	// Eq(v,v) folds to true; declare by hand instead
+	_ = extra
+	body := PrintQuery(asserts)
+	var sb strings.Builder
+	sb.WriteString("(set-option :produce-models true)\n(set-logic ALL)\n")
+	sb.WriteString(Prelude(""))
+	for _, n := range names {
+		decl := fmt.Sprintf("(declare-const %s %s)\n", quoteSym(n+"@pre"), memArrays[n].S)
+		if !strings.Contains(body, "(declare-const "+quoteSym(n+"@pre")+" ") {
+			sb.WriteString(decl)
+		}
+	}
+	sb.WriteString(body)
+	sb.WriteString("(check-sat)\n")
+	script := sb.String()
 	termMu.Unlock()
-	rp := &replayer{script: script, answers: map[string]string{}}
-	for _, p := range params {
-		rp.plan1(quoteSym("p$"+sanitize(p.Name())), p.Type())
+	sess, st := startSession(script)
+	if sess == nil {
+		return "\nreplay: the model could not be re-established (" + st + "); no-failing-input-found\n"
 	}
-	if rp.unsupp != "" {
-		return "\nreplay: not attempted (" + rp.unsupp + "); no-failing-input-found\n"
+	defer sess.close()
+
+	// 2. inputs
+	rd := &renderer{pre: pre, sess: sess, pkg: fn.Pkg.Pkg, alias: map[string]string{}, imports: map[string]string{}, notes: map[string]bool{}}
+	var paramNames, paramVals []string
+	termMu.Lock()
+	for i, p := range fn.Params {
+		name := p.Name()
+		if name == "" || name == "_" {
+			name = fmt.Sprintf("zzarg%d", i)
+		}
+		v := rd.value(Var("p$"+sanitize(p.Name()), sortOf(p.Type())), p.Type(), 0)
+		if v == "nil" {
+			tl, _ := rd.typeLit(p.Type())
+			v = "(" + tl + ")(nil)"
+		}
+		paramNames = append(paramNames, name)
+		paramVals = append(paramVals, v)
 	}
-	if !rp.runQueries() {
-		return "\nreplay: the model could not be read back; no-failing-input-found\n"
+	termMu.Unlock()
+	if sess.dead {
+		return "\nreplay: the model session ended before the input was read back; no-failing-input-found\n"
 	}
-	for _, p := range params {
-		rp.plan2(quoteSym("p$"+sanitize(p.Name())), p.Type())
-	}
-	if rp.unsupp != "" {
-		return "\nreplay: not attempted (" + rp.unsupp + "); no-failing-input-found\n"
-	}
-	if !rp.runQueries() {
-		return "\nreplay: the model could not be read back; no-failing-input-found\n"
-	}
-	var args []string
-	for _, p := range params {
-		args = append(args, rp.render(quoteSym("p$"+sanitize(p.Name())), p.Type()))
-	}
-	pkgName := fn.Pkg.Pkg.Name()
-	call := fmt.Sprintf("%s%s(%s)", callPrefix, fn.Name(), strings.Join(args, ", "))
-	if fn.Signature.Variadic() && len(args) > 0 {
-		call = fmt.Sprintf("%s%s(%s...)", callPrefix, fn.Name(), strings.Join(args, ", "))
-	}
+
+	// 3. contract clauses as Go
+	ct := &ctrans{fn: fn, sp: sp, results: map[string]string{}}
 	nres := fn.Signature.Results().Len()
+	var resVars []string
+	for i := 0; i < nres; i++ {
+		rv := fmt.Sprintf("zzr%d", i)
+		resVars = append(resVars, rv)
+		ct.results[fmt.Sprintf("result%d", i)] = rv
+		if nm := fn.Signature.Results().At(i).Name(); nm != "" && nm != "_" {
+			ct.results[nm] = rv
+		}
+		if sp != nil && i < len(sp.Results) && sp.Results[i] != "" {
+			ct.results[sp.Results[i]] = rv
+		}
+	}
+	if nres == 1 {
+		ct.results["result"] = "zzr0"
+	}
+	// parameters shadow results of the same name in preconditions only; in Go both cannot coexist, so
+	// named results that collide with parameters are not supported
+	var reqSrc []string
+	var reqCode []string
+	if sp != nil {
+		for _, rq := range sp.Requires {
+			c2 := &ctrans{fn: fn, sp: sp, results: map[string]string{}}
+			code := c2.tr(rq.E)
+			if c2.why != "" || len(c2.olds) > 0 {
+				reqSrc = append(reqSrc, rq.Src+"   [not compiled: "+c2.why+"]")
+				reqCode = append(reqCode, "")
+				continue
+			}
+			reqSrc = append(reqSrc, rq.Src)
+			reqCode = append(reqCode, code)
+		}
+	}
+	clauseCode := ""
+	clauseWhy := ""
+	if clause != nil {
+		if isPreserves {
+			var parts []string
+			for _, loc := range splitTop(clause.Src, ',') {
+				le := parseCExpr(strings.TrimSpace(loc), "replay")
+				cur := ct.tr(le)
+				ct.inOld = true
+				old := ct.tr(le)
+				ct.inOld = false
+				ct.nold++
+				name := fmt.Sprintf("zzold%d", ct.nold)
+				ct.olds = append(ct.olds, fmt.Sprintf("%s := %s", name, old))
+				parts = append(parts, fmt.Sprintf("zzEq(%s, %s)", name, cur))
+			}
+			clauseCode = strings.Join(parts, " && ")
+		} else {
+			clauseCode = ct.tr(clause.E)
+		}
+		clauseWhy = ct.why
+	}
+
+	// 4. the test
+	pkgName := fn.Pkg.Pkg.Name()
+	var call string
+	args := paramNames
+	if fn.Signature.Recv() != nil {
+		call = fmt.Sprintf("%s.%s(%s", paramNames[0], fn.Name(), strings.Join(paramNames[1:], ", "))
+		args = paramNames[1:]
+	} else {
+		call = fmt.Sprintf("%s(%s", fn.Name(), strings.Join(paramNames, ", "))
+	}
+	if fn.Signature.Variadic() && len(args) > 0 {
+		call += "..."
+	}
+	call += ")"
+	var body2 strings.Builder
+	for _, d := range rd.decls {
+		body2.WriteString("\t" + d + "\n")
+	}
+	for i := range paramNames {
+		fmt.Fprintf(&body2, "\t%s := %s\n\t_ = %s\n", paramNames[i], paramVals[i], paramNames[i])
+	}
+	for k := 1; k <= rd.n; k++ {
+		// silence unused variables
+	}
+	for key, v := range rd.alias {
+		_ = key
+		fmt.Fprintf(&body2, "\t_ = %s\n", v)
+	}
+	for i, code := range reqCode {
+		if code == "" {
+			fmt.Fprintf(&body2, "\tfmt.Println(\"ZZREPLAY requires %d = not-compiled\")\n", i)
+			continue
+		}
+		fmt.Fprintf(&body2, "\tfmt.Printf(\"ZZREPLAY requires %d = %%v\\n\", func() (ok bool) { defer func() { if recover() != nil { ok = false } }(); return %s }())\n", i, code)
+	}
+	if clauseCode != "" && clauseWhy == "" {
+		for _, s := range ct.olds {
+			name := strings.SplitN(s, " ", 2)[0]
+			fmt.Fprintf(&body2, "\t%s\n\t_ = %s\n", s, name)
+		}
+	}
 	lhs := ""
 	if nres > 0 {
-		var us []string
-		for i := 0; i < nres; i++ {
-			us = append(us, fmt.Sprintf("r%d", i))
+		lhs = strings.Join(resVars, ", ") + " := "
+	}
+	fmt.Fprintf(&body2, "\t%s%s\n", lhs, call)
+	for _, rv := range resVars {
+		fmt.Fprintf(&body2, "\t_ = %s\n", rv)
+	}
+	body2.WriteString("\tfmt.Println(\"ZZREPLAY returned\")\n")
+	for i, rv := range resVars {
+		fmt.Fprintf(&body2, "\tfmt.Printf(\"ZZREPLAY result%d = %%.300v\\n\", %s)\n", i, rv)
+	}
+	if clauseCode != "" && clauseWhy == "" {
+		fmt.Fprintf(&body2, "\tfmt.Printf(\"ZZREPLAY clause = %%v\\n\", %s)\n", clauseCode)
+	}
+	imports := map[string]string{"fmt": "fmt", "math/big": "big", "reflect": "reflect", "runtime/debug": "debug", "strings": "strings", "testing": "testing"}
+	for p, n := range rd.imports {
+		imports[p] = n
+	}
+	var ips []string
+	for p := range imports {
+		ips = append(ips, p)
+	}
+	sort.Strings(ips)
+	var imp strings.Builder
+	for _, p := range ips {
+		fmt.Fprintf(&imp, "\t%s %q\n", imports[p], p)
+	}
+	var uses strings.Builder
+	for _, p := range ips {
+		switch imports[p] {
+		case "fmt", "testing", "reflect", "debug", "strings", "big":
+			continue
 		}
-		lhs = strings.Join(us, ", ") + " := "
+		// keep otherwise-unused imports alive is not possible generically; they are only added when a type is named
 	}
-	var printRes strings.Builder
-	for i := 0; i < nres; i++ {
-		fmt.Fprintf(&printRes, "\tfmt.Printf(\"ZZREPLAY result%d = %%#v\\n\", r%d)\n", i, i)
-	}
+	_ = uses
 	src := fmt.Sprintf(`package %s
 
 import (
-	"fmt"
-	"math/big"
-	"testing"
-)
-
-func zzBig(s string) *big.Int { n, _ := new(big.Int).SetString(s, 10); return n }
-
-var _ = zzBig
-
+%s)
+%s
 // Replay of the solver's counterexample for obligation
 //   %s
 func TestZZReplay(t *testing.T) {
 	defer func() {
 		if r := recover(); r != nil {
 			fmt.Printf("ZZREPLAY panic: %%v\n", r)
+			fmt.Printf("ZZREPLAY stack: %%s\n", zzStack())
 		}
 	}()
-	%s%s
-%s	fmt.Println("ZZREPLAY returned")
-}
-`, pkgName, o.Name, lhs, call, printRes.String())
+%s}
+`, pkgName, imp.String(), replayHelpers, strings.ReplaceAll(o.Name, "\n", " "), body2.String())
 	dir := filepath.Join("/verif/replay", "src")
 	os.MkdirAll(dir, 0o755)
 	testFile := filepath.Join(dir, sanitize(o.Name)+"_test.go")
@@ -390,31 +1180,79 @@ func TestZZReplay(t *testing.T) {
 	cmd.Env = append(os.Environ(), "GOFLAGS=-mod=mod", "GOPROXY=off", "GOSUMDB=off", "GOTOOLCHAIN=local")
 	out, _ := cmd.CombinedOutput()
 	outS := string(out)
-	var sb strings.Builder
-	fmt.Fprintf(&sb, "\nreplay test: %s\nreplay call: %s\n", testFile, call)
-	panicked := strings.Contains(outS, "ZZREPLAY panic:") || strings.Contains(outS, "panic:")
-	returned := strings.Contains(outS, "ZZREPLAY returned")
-	for _, ln := range strings.Split(outS, "\n") {
-		if strings.Contains(ln, "ZZREPLAY") || strings.HasPrefix(ln, "panic:") || strings.Contains(ln, "FAIL") {
-			sb.WriteString("  " + ln + "\n")
+
+	var rep strings.Builder
+	fmt.Fprintf(&rep, "\nreplay test: %s\nreplay call: %s\n", testFile, call)
+	for i := range paramNames {
+		fmt.Fprintf(&rep, "  %s = %s\n", paramNames[i], trunc(paramVals[i], 400))
+	}
+	if len(rd.notes) > 0 {
+		var ns []string
+		for n := range rd.notes {
+			ns = append(ns, n)
+		}
+		sort.Strings(ns)
+		rep.WriteString("input materialisation notes:\n")
+		for _, n := range ns {
+			rep.WriteString("  - " + n + "\n")
 		}
 	}
-	kind := o.Kind
-	if i := strings.Index(kind, ":"); i >= 0 {
-		kind = kind[:i]
+	for i, s := range reqSrc {
+		fmt.Fprintf(&rep, "requires %d: %s\n", i, s)
+	}
+	if clause != nil {
+		if clauseWhy != "" {
+			fmt.Fprintf(&rep, "violated clause not compiled to Go: %s\n", clauseWhy)
+		} else {
+			fmt.Fprintf(&rep, "violated clause as Go: %s\n", trunc(clauseCode, 600))
+		}
+	}
+	rep.WriteString("execution:\n")
+	for _, ln := range strings.Split(outS, "\n") {
+		if strings.Contains(ln, "ZZREPLAY") || strings.HasPrefix(ln, "panic:") || strings.Contains(ln, "FAIL") || strings.Contains(ln, ".go:") && strings.Contains(ln, ": ") && !strings.Contains(ln, "ZZREPLAY") {
+			rep.WriteString("  " + trunc(ln, 1200) + "\n")
+		}
+	}
+	built := strings.Contains(outS, "ZZREPLAY") || strings.Contains(outS, "--- PASS") || strings.Contains(outS, "--- FAIL")
+	panicked := strings.Contains(outS, "ZZREPLAY panic:") || strings.Contains(outS, "\npanic:")
+	returned := strings.Contains(outS, "ZZREPLAY returned")
+	reqFalse := false
+	reqUnknown := 0
+	for i, code := range reqCode {
+		if code == "" {
+			reqUnknown++
+			continue
+		}
+		if strings.Contains(outS, fmt.Sprintf("ZZREPLAY requires %d = false", i)) {
+			reqFalse = true
+		}
+	}
+	posStr := ""
+	if o.Pos != token.NoPos {
+		p := prog.Fset.Position(o.Pos)
+		posStr = fmt.Sprintf("/%s:%d", filepath.Base(p.Filename), p.Line)
 	}
 	switch {
-	case safetyKinds[kind] && panicked:
+	case !built:
+		rep.WriteString("replay: the generated test did not build or run; no-failing-input-found\n" + trunc(outS, 2500) + "\n")
+	case reqFalse:
+		rep.WriteString("replay: the materialised input does not satisfy the function's precondition (the model's heap could not be rebuilt faithfully); no-failing-input-found\n")
+	case safetyKinds[kind] && panicked && posStr != "" && strings.Contains(outS, posStr+" "):
 		o.Replayed = true
-		sb.WriteString("replay: REPRODUCED - the real code panics on the counterexample\n")
+		fmt.Fprintf(&rep, "replay: REPRODUCED - the real code panics at %s on the counterexample (%d of %d preconditions evaluated, all true)\n", strings.TrimPrefix(posStr, "/"), len(reqCode)-reqUnknown, len(reqCode))
+	case safetyKinds[kind] && panicked:
+		rep.WriteString("replay: the call panicked, but not at the position of the obligation (" + strings.TrimPrefix(posStr, "/") + "): not counted; no-failing-input-found\n")
 	case safetyKinds[kind] && returned:
-		sb.WriteString("replay: not reproduced (the call returned normally); no-failing-input-found\n")
-	case !safetyKinds[kind]:
-		sb.WriteString("replay: the call was executed on the counterexample (results above); the violated clause is not evaluated dynamically: no-failing-input-found\n")
+		rep.WriteString("replay: not reproduced (the call returned normally); no-failing-input-found\n")
+	case clause != nil && clauseWhy == "" && returned && strings.Contains(outS, "ZZREPLAY clause = false"):
+		o.Replayed = true
+		fmt.Fprintf(&rep, "replay: REPRODUCED - on the counterexample the real code returns and the violated clause evaluates to false (%d of %d preconditions evaluated, all true)\n", len(reqCode)-reqUnknown, len(reqCode))
+	case clause != nil && clauseWhy == "" && returned && strings.Contains(outS, "ZZREPLAY clause = true"):
+		rep.WriteString("replay: not reproduced (the clause holds on the real execution of the materialised input); no-failing-input-found\n")
+	case clause != nil && clauseWhy != "":
+		rep.WriteString("replay: the call was executed on the counterexample; the violated clause refers to ghost state or spec functions and is not evaluated dynamically; no-failing-input-found\n")
 	default:
-		sb.WriteString("replay: inconclusive\n" + trunc(outS, 1500) + "\n")
+		rep.WriteString("replay: inconclusive; no-failing-input-found\n" + trunc(outS, 1500) + "\n")
 	}
-	return sb.String()
+	return rep.String()
 }
-
-var _ = ssa.NewProgram
